@@ -64,7 +64,7 @@ def _dot_interp(x, xp, fp):
   u = jnp.searchsorted(xp, x, side='right', method='compare_all')
   u = jnp.clip(u, 1, n - 1)
   weights = w_left * (i == (u - 1)) + w_right * (i == u)
-  weights = jnp.where(x < xp[0], i == 0, weights)
+  weights = jnp.where(x <= xp[0], i == 0, weights)
   weights = jnp.where(x > xp[-1], i == (n - 1), weights)
   return jnp.dot(weights, fp, precision='highest')
 
